@@ -176,6 +176,29 @@ for _k, _v in list(REPLAY_ARMS.items()):
         REPLAY_ARMS['set_ref::HashSetRef::' + _m] = _call
 
 
+# equality between maps / sets and their reference wrappers goes through guarded_eq with two guards
+_EQ_MAP = ['let g1 = map.guard(); let _ = map.with_guard(&g1) == map2.with_guard(&guard);',
+           'let g1 = map.guard(); let _ = map2.with_guard(&guard) == map.with_guard(&g1);',
+           'let _ = map == map2.with_guard(&guard);',
+           'let _ = map2.with_guard(&guard) == map;']
+_EQ_SET = ['let g1 = set.guard(); let _ = set.with_guard(&g1) == set2.with_guard(&guard);',
+           'let g1 = set.guard(); let _ = set2.with_guard(&guard) == set.with_guard(&g1);',
+           'let _ = set == set2.with_guard(&guard);',
+           'let _ = set2.with_guard(&guard) == set;']
+EQ_GROUPS = {'map::HashMap::guarded_eq': _EQ_MAP + _EQ_SET, 'set::HashSet::guarded_eq': _EQ_SET,
+             '<map_ref::HashMapRef as PartialEq>::eq': _EQ_MAP, '<map_ref::HashMap as PartialEq>::eq': _EQ_MAP,
+             '<set_ref::HashSetRef as PartialEq>::eq': _EQ_SET, '<set_ref::HashSet as PartialEq>::eq': _EQ_SET}
+for _n, _codes in EQ_GROUPS.items():
+    for _i, _c in enumerate(_codes):
+        REPLAY_ARMS['%s@%d' % (_n, _i)] = _c
+
+
+def replay_keys(name: str) -> List[str]:
+    if name in REPLAY_ARMS:
+        return [name]
+    return [k for k in REPLAY_ARMS if k.startswith(name + '@')]
+
+
 def replay_program(methods: List[str]) -> str:
     arms = '\n'.join('            %r => {{ %s }}' % (m, REPLAY_ARMS[m]) for m in methods).replace("'", '"')
     return '''
@@ -189,7 +212,10 @@ fn main() {
             let map: HashMap<u32, u32> = HashMap::new();
             let set: HashSet<u32> = HashSet::new();
             let set2: HashSet<u32> = HashSet::new();
+            let map2: HashMap<u32, u32> = HashMap::new();
             if populated {
+                let g = map2.guard();
+                for i in 0..20u32 { map2.insert(i, i, &g); }
                 let g = map.guard();
                 for i in 0..20u32 { map.insert(i, i, &g); }
                 let g = set.guard();
@@ -290,7 +316,7 @@ def run(tier: str) -> int:
                       '\n'.join(b.term.text for b in cg.blocks.values()))
     if failing:
         names = sorted({f.name.split('#')[0] for f, _, _ in failing})
-        replayable = [n for n in names if n in REPLAY_ARMS]
+        replayable = sorted({k for n in names for k in replay_keys(n)})
         outcome: Dict[str, List[str]] = {}
         if replayable:
             for release in (False, True):
@@ -309,13 +335,15 @@ def run(tier: str) -> int:
             last = r.path[-1][0][0] if r.path else None
             why = mon.why.get(last, '')
             desc = '%s uses its guard (local _%d) before check_guard: %s\npath:\n%s' % (n, root, why, P.describe_path(f, r.path))
-            if n in outcome:
-                if any(':returned:' in o for o in outcome[n]):
-                    chk.violation('unchecked-guard:' + n, desc + '\nnative replay with a foreign collector\'s guard: ' + ', '.join(outcome[n]),
-                                  replay_program([n]), replay_name=n.replace('::', '_') + '.rs')
+            keys = replay_keys(n)
+            outs = [o for k in keys for o in outcome.get(k, [])]
+            if outs:
+                if any(':returned:' in o for o in outs):
+                    chk.violation('unchecked-guard:' + n, desc + '\nnative replay with a foreign collector\'s guard: ' + ', '.join(outs),
+                                  replay_program(keys), replay_name=re.sub(r'[^A-Za-z0-9]+', '_', n) + '.rs')
                 else:
-                    chk.inconclusive.append('%s: solver found an unchecked path but the native call panicked in every configuration (%s) - encoder too coarse' % (n, outcome[n]))
-            elif n not in REPLAY_ARMS:
+                    chk.inconclusive.append('%s: solver found an unchecked path but the native call panicked in every configuration (%s) - encoder too coarse' % (n, outs))
+            elif not keys:
                 chk.inconclusive.append('%s: unchecked guard use found (%s) but no native replay template exists for this method' % (n, why))
     return chk.finish()
 
